@@ -88,6 +88,17 @@ func (r *NodeManagement) processReplyDetailedDiscoveryData(message *api.Message,
 		Events.Publish(payload)
 	}
 
+	// the reply describes the complete device: entities it does not list do not exist any more
+	var listedEntities [][]model.AddressEntityType
+	for _, ei := range data.EntityInformation {
+		listedEntities = append(listedEntities, ei.Description.EntityAddress.Entity)
+	}
+	for _, entity := range remoteDevice.Entities() {
+		if !r.addressEntityListContainsAddressEntity(listedEntities, entity.Address().Entity) {
+			r.removeRemoteEntity(remoteDevice, entity.Address().Entity, data)
+		}
+	}
+
 	return nil
 }
 
@@ -171,6 +182,40 @@ func (r *NodeManagement) provideDetailedDiscoveryDiffForFullNotify(message *api.
 	data.FeatureInformation = updatedFeatureInformation
 
 	return data
+}
+
+// remove the entity with the given address from the remote device, if it exists,
+// together with everything that refers to it
+func (r *NodeManagement) removeRemoteEntity(remoteDevice api.DeviceRemoteInterface, entityAddress []model.AddressEntityType, data *model.NodeManagementDetailedDiscoveryDataType) {
+	removedEntity := remoteDevice.RemoveEntityByAddress(entityAddress)
+
+	// only continue if the entity existed
+	if removedEntity == nil {
+		return
+	}
+
+	payload := api.EventPayload{
+		Ski:        remoteDevice.Ski(),
+		EventType:  api.EventTypeEntityChange,
+		ChangeType: api.ElementChangeRemove,
+		Device:     remoteDevice,
+		Entity:     removedEntity,
+		Data:       data,
+	}
+	Events.Publish(payload)
+
+	// remove all subscriptions for this entity
+	subscriptionMgr := r.Device().SubscriptionManager()
+	subscriptionMgr.RemoveSubscriptionsForEntity(removedEntity)
+
+	// remove all bindings for this entity
+	bindingMgr := r.Device().BindingManager()
+	bindingMgr.RemoveBindingsForEntity(removedEntity)
+
+	// remove all feature caches for this entity; the caches are keyed by the
+	// address of the remote device, which an entity created before the
+	// detailed discovery reply does not carry
+	r.Device().CleanRemoteEntityCaches(EntityAddressType(remoteDevice.Address(), removedEntity.Address().Entity))
 }
 
 // handle incoming detailed discovery notify data
@@ -271,36 +316,7 @@ func (r *NodeManagement) processNotifyDetailedDiscoveryData(message *api.Message
 				return err
 			}
 
-			entityAddress := entity.Description.EntityAddress.Entity
-			removedEntity := remoteDevice.RemoveEntityByAddress(entityAddress)
-
-			// only continue if the entity existed
-			if removedEntity == nil {
-				continue
-			}
-
-			payload := api.EventPayload{
-				Ski:        remoteDevice.Ski(),
-				EventType:  api.EventTypeEntityChange,
-				ChangeType: api.ElementChangeRemove,
-				Device:     remoteDevice,
-				Entity:     removedEntity,
-				Data:       data,
-			}
-			Events.Publish(payload)
-
-			// remove all subscriptions for this entity
-			subscriptionMgr := r.Device().SubscriptionManager()
-			subscriptionMgr.RemoveSubscriptionsForEntity(removedEntity)
-
-			// remove all bindings for this entity
-			bindingMgr := r.Device().BindingManager()
-			bindingMgr.RemoveBindingsForEntity(removedEntity)
-
-			// remove all feature caches for this entity; the caches are keyed by the
-			// address of the remote device, which an entity created before the
-			// detailed discovery reply does not carry
-			r.Device().CleanRemoteEntityCaches(EntityAddressType(remoteDevice.Address(), removedEntity.Address().Entity))
+			r.removeRemoteEntity(remoteDevice, entity.Description.EntityAddress.Entity, data)
 		}
 	}
 
